@@ -283,6 +283,22 @@ pub fn sweep_c14(out: &mut RunOut) -> u64 {
         let mut j = |cx: &DeliveryCtx, out: &mut RunOut| judge_c14(cx, out);
         n += run(&b, planned, &mix, &mut j, out);
     }
+    // real provider latency (1.2 s of wall-clock time) on requests that are half a second from the
+    // edge of the window: the outcome is the one an immediate provider gives (control twin)
+    for seed in 0..2u64 {
+        let b = base(seed, &mix);
+        let mut planned = Vec::new();
+        for off in [-(refm::WINDOW_NS - refm::NS / 2), refm::WINDOW_NS - refm::NS / 2] {
+            let mut sc = ProvScript::default();
+            sc.real_sleep_ms = 1200;
+            planned.push(plan(&b, b.msg.clone(), b.msg.auth.instant_ns - off, sc));
+        }
+        let mut j = |cx: &DeliveryCtx, out: &mut RunOut| {
+            out.probe("real_provider_latency");
+            judge_c14(cx, out)
+        };
+        n += run(&b, planned, &mix, &mut j, out);
+    }
     n
 }
 
